@@ -1,6 +1,7 @@
 /- C15 — helper lemmas for the RTP header / packet codec (core Lean only). -/
 import RtcModel.C15Rtp
 import RtcModel.Lemmas.C15Bytes
+import RtcModel.Lemmas.C15Consts
 
 namespace RtcModel.C15
 open RtcModel.Generated
@@ -14,11 +15,39 @@ structure Header.WF (h : Header) : Prop where
 
 theorem validate_ok_of_wf {h : Header} (w : h.WF) : h.validate = .ok () := by
   unfold Header.validate
-  have hc : ¬ h.csrcs.length > c15MaxCsrc := by have := w.csrcs; simp only [c15MaxCsrc_val]; omega
-  rw [if_neg hc]
+  simp only [c15PtMax_eq, c15MaxCsrc_eq]
+  rw [if_neg (by have := w.pt; omega), if_neg (by have := w.csrcs; omega)]
   cases he : h.ext with
   | none => rfl
-  | some e => simp [w.extAligned e he]
+  | some e =>
+    simp only
+    rw [if_neg (by have := w.extAligned e he; omega), if_neg (by have := w.extWords e he; omega)]
+
+/-- `validate` accepts exactly the headers the wire format can carry -/
+theorem validate_ok_iff (h : Header) : h.validate = .ok () ↔ h.WF := by
+  constructor
+  · intro hv
+    unfold Header.validate at hv
+    simp only [c15PtMax_eq, c15MaxCsrc_eq] at hv
+    by_cases h1 : h.pt.toNat > 127
+    · rw [if_pos h1] at hv; cases hv
+    · rw [if_neg h1] at hv
+      by_cases h2 : h.csrcs.length > 15
+      · rw [if_pos h2] at hv; cases hv
+      · rw [if_neg h2] at hv
+        cases he : h.ext with
+        | none =>
+          refine ⟨by omega, by omega, ?_, ?_⟩ <;> intro e h' <;> rw [he] at h' <;> cases h'
+        | some e =>
+          rw [he] at hv
+          simp only at hv
+          by_cases h3 : e.data.length % 4 ≠ 0
+          · rw [if_pos h3] at hv; cases hv
+          · rw [if_neg h3] at hv
+            by_cases h4 : e.data.length / 4 > 65535
+            · rw [if_pos h4] at hv; cases hv
+            · refine ⟨by omega, by omega, ?_, ?_⟩ <;> intro e' h' <;> rw [he] at h' <;> cases h' <;> omega
+  · exact validate_ok_of_wf
 
 theorem parseExtBlock_extBytes (ext : Option Ext) (tail : Bytes)
     (hal : ∀ e, ext = some e → e.data.length % 4 = 0) (hw : ∀ e, ext = some e → e.data.length / 4 < 65536) :
@@ -44,7 +73,7 @@ theorem parseHeader_writeHeader (h : Header) (hp : Bool) (tail : Bytes) (w : h.W
   have hb0 : (128 + (if hp then 32 else 0) + (if ext.isSome then 16 else 0) + csrcs.length % 16) < 256 := by
     split <;> split <;> omega
   have hb1 : pt.toNat % 128 + (if m then 128 else 0) < 256 := by split <;> omega
-  simp only [writeHeader, be16, be32, List.cons_append, List.nil_append, List.append_assoc, parseHeader,
+  simp only [writeHeader, c15CsrcMask_eq, c15PtMask_eq, be16, be32, List.cons_append, List.nil_append, List.append_assoc, parseHeader,
     u8_toNat, Nat.mod_eq_of_lt hb0, Nat.mod_eq_of_lt hb1, c15RtpVersion_val]
   have hv : (128 + (if hp then 32 else 0) + (if ext.isSome then 16 else 0) + csrcs.length % 16) / 64 = 2 := by
     split <;> split <;> omega
@@ -220,7 +249,7 @@ theorem parseHeader_inv {bs rest : Bytes} {h : Header} {p : Bool} (hp : parseHea
           obtain ⟨hrest, hx⟩ := parseExtBlock_inv hext
           have hb0 := b0.toNat_lt
           have hb1 := b1.toNat_lt
-          simp only [writeHeader, be16_rd16, be32_rd32, hcl, List.cons_append, List.nil_append, List.append_assoc]
+          simp only [writeHeader, c15CsrcMask_eq, c15PtMask_eq, be16_rd16, be32_rd32, hcl, List.cons_append, List.nil_append, List.append_assoc]
           have e0 : u8 (128 + (if (b0.toNat / 32 % 2 == 1) = true then 32 else 0) + (if ext.isSome = true then 16 else 0) +
               b0.toNat % 16 % 16) = b0 := by
             rw [hx]
